@@ -31,6 +31,8 @@ Dom_graph == D({"none"}, {<<"AA-MIB">>, <<"BB-MIB">>, <<"afile">>, <<"BB-MIB", "
 Keep_graph_q(x) == (x.sub => x.srcB = "ok" /\ x.imp \in {"AB", "both"} /\ x.spell = "exact" /\ ~x.alias /\ x.dstB = "absent" /\ x.base /\ x.reqForm = "name")
                    /\ (x.reqForm = "path" => x.spell = "exact" /\ x.imp \in {"AB", "none"} /\ x.base /\ ~x.borB) /\ ~x.noWrites /\ (x.dstB = "fresh" => x.borB) /\ (x.spell = "variant" => x.imp # "none" /\ ~x.alias)
 
+Keep_graph_t(x) == (x.sub => x.reqForm = "name" /\ x.spell = "exact") /\ (x.reqForm = "path" => x.spell = "exact")
+
 \* sources slice: two source directories, the first / second holding a good / broken / no copy of AA-MIB
 Dom_sources == D({"none"}, {<<"AA-MIB">>, <<"AA-MIB", "BB-MIB">>, <<"afile", "AA-MIB">>, <<"afile">>}, Src3, Src3, Src3, BB, FF, {"AB", "BA"}, {"exact"},
                  {"absent", "fresh"}, {"absent"}, {"dir"}, {"name"}, FF, BB, FF, TT, BB, FF, BB, FF, FF, {"no"}, FF, FF)
